@@ -3885,3 +3885,21 @@ Proof.
   rewrite (sumZ_at_unique (b_id b) b_pending _ b (own_ids _ _ _ _ O) Hb eq_refl) in P.
   pose proof (npipe_nonneg (b_id b) s). lia.
 Qed.
+
+(* executable version of "a run without late cancels" (for concrete examples) *)
+Definition not_lateb (s : pool) (e : event) : bool :=
+  match e with ECancel t => negb (late_cancel s t) | _ => true end.
+Fixpoint runN (s : pool) (evs : list (event * oracle)) : option pool :=
+  match evs with
+  | [] => Some s
+  | (e, o) :: r => if not_lateb s e then match step s e o with Some s' => runN s' r | None => None end else None
+  end.
+Lemma runN_reachN mx : forall evs s s', reachN mx s -> runN s evs = Some s' -> reachN mx s'.
+Proof.
+  induction evs as [|[e o] r IH]; intros s s' R E; cbn [runN] in E.
+  - inversion E; subst; exact R.
+  - destruct (not_lateb s e) eqn:NL; [|discriminate].
+    destruct (step s e o) as [s1|] eqn:St; [|discriminate]. eapply IH; [|exact E].
+    eapply reachN_step; [exact R| |exact St].
+    destruct e; cbn in *; auto. apply negb_true_iff in NL. exact NL.
+Qed.
